@@ -20,6 +20,7 @@ static int MapStatus(int st) {
   if (WIFSIGNALED(st)) {
     int sg = WTERMSIG(st);
     if (sg == SIGINT || sg == SIGTERM || sg == SIGHUP) return 130;
+    return 128 + sg;   // the shell convention, core file or not
   }
   return (st + 128) & 0xff;
 }
@@ -551,14 +552,14 @@ void World::CheckCycles(const InvRecord& r, const std::set<std::string>& dd_at_s
         for (const SpawnRec& x : r.spawns) if (x.stmt == d->producer) { producer_ran = true; if (x.reap_seq && x.reap_status == 0) producer_ran_ok = true; }
       bool certain = d && ((dd_at_start.count(s.dyndep) && !producer_ran && r.res.exit_code == 0) ||
                            (dd_at_start.count(s.dyndep) && d->producer < 0) || producer_ran_ok);
-      if (level == 1 || certain) v.insert(v.end(), e->imp_ins.begin(), e->imp_ins.end());
+      if (level == 1 || level == 3 || certain) v.insert(v.end(), e->imp_ins.begin(), e->imp_ins.end());
     }
     if (level == 2 && s.deps_kind >= 2 && !s.outs.empty()) {
       // what the deps log holds for the statement when ninja starts
       auto rec = r.deps_before.last.find(s.outs[0]);
       if (rec != r.deps_before.last.end()) v.insert(v.end(), rec->second.deps.begin(), rec->second.deps.end());
     }
-    if (level == 1) {
+    if (level == 1 || level == 3) {
       // what a command reports is the files it read: an alias among its hidden
       // includes shows up as the files behind it
       std::function<void(const std::string&, int)> add = [&](const std::string& p, int depth) {
@@ -572,9 +573,47 @@ void World::CheckCycles(const InvRecord& r, const std::set<std::string>& dd_at_s
     }
     return v;
   };
+  // who produces a path: the manifest says, or - only for statements ninja has in its graph
+  // anyway (|known|), whose dyndep file it therefore loads - their dyndep file
+  auto manifest_producer = [&](const std::string& p) {
+    for (const Stmt& s : sc.stmts) {
+      if (!s.alive) continue;
+      for (auto& o : s.outs) if (o == p) return s.id;
+      for (auto& o : s.imp_outs) if (o == p) return s.id;
+    }
+    return -1;
+  };
+  auto dd_certain = [&](int id) {
+    const Stmt& s = sc.stmts[id];
+    const DyndepFile* dq = s.dyndep.empty() ? nullptr : sc.FindDyndep(s.dyndep);
+    if (!dq || !sc.DyndepFor(id)) return false;
+    bool producer_ran_ok = false, producer_ran = false;
+    if (dq->producer >= 0)
+      for (const SpawnRec& x : r.spawns) if (x.stmt == dq->producer) { producer_ran = true; if (x.reap_seq && x.reap_status == 0) producer_ran_ok = true; }
+    return (dd_at_start.count(s.dyndep) && !producer_ran && r.res.exit_code == 0) || (dd_at_start.count(s.dyndep) && dq->producer < 0) || producer_ran_ok;
+  };
   // is a cycle reachable from the requested targets (validations are extra roots)?
   auto cyclic = [&](int level) {
     std::vector<std::string> roots = EffectiveTargets(r.plan);
+    // statements reachable through what the manifest (and loaded dyndep inputs) say
+    std::set<int> known;
+    {
+      std::vector<std::string> todo = roots;
+      while (!todo.empty()) {
+        std::string t = todo.back(); todo.pop_back();
+        int pr0 = manifest_producer(t);
+        if (pr0 < 0 || !known.insert(pr0).second) continue;
+        for (auto& p : inputs(pr0, level)) todo.push_back(p);
+        for (auto& v : sc.stmts[pr0].validations) todo.push_back(v);
+      }
+    }
+    auto producer = [&](const std::string& p) {
+      int m = manifest_producer(p);
+      if (m >= 0) return m;
+      int q = sc.Producer(p);   // an output only a dyndep file declares
+      if (level != 3 && q >= 0 && known.count(q) && (level == 1 || dd_certain(q))) return q;
+      return -1;
+    };
     std::map<int, int> color;   // 1 on stack, 2 done
     bool found = false;
     std::vector<std::string> pending = roots;
@@ -582,7 +621,7 @@ void World::CheckCycles(const InvRecord& r, const std::set<std::string>& dd_at_s
       if (found) return;
       color[id] = 1;
       for (auto& p : inputs(id, level)) {
-        int pr = sc.Producer(p);
+        int pr = producer(p);
         if (pr < 0) continue;
         if (color[pr] == 1) { found = true; return; }
         if (color[pr] == 0) dfs(pr);
@@ -593,7 +632,7 @@ void World::CheckCycles(const InvRecord& r, const std::set<std::string>& dd_at_s
     };
     while (!pending.empty() && !found) {
       std::string t = pending.back(); pending.pop_back();
-      int pr = sc.Producer(t);
+      int pr = producer(t);
       if (pr >= 0 && color[pr] == 0) dfs(pr);
     }
     return found;
@@ -635,16 +674,30 @@ void World::CheckCycles(const InvRecord& r, const std::set<std::string>& dd_at_s
       if (pr >= 0) for (auto& p : inputs(pr, 1)) if (p == hops[h + 1]) ok = true;
       if (!ok) Report("C17", "bad_cycle_path", "the reported cycle '" + path + "' contains the hop '" + hops[h] + " -> " + hops[h + 1] + "' which is not a dependency in the graph");
     }
+    // (a command started before the dyndep file that closes the cycle was loaded could not be held back)
+    uint64_t last_dd_load = 0;
+    for (const Ev& e : r.res.trace)
+      if (e.kind == Ev::kOpenRead) for (auto& dd : sc.dyndeps) if (e.s == "/w/" + dd.path) last_dd_load = std::max(last_dd_load, e.seq);
     for (const SpawnRec& x : r.spawns)
-      for (auto& hp : hops) if (sc.Producer(hp) == x.stmt && x.epoch == r.epochs)
+      for (auto& hp : hops) if (sc.Producer(hp) == x.stmt && x.epoch == r.epochs && x.seq > last_dd_load)
         Report("C17", "cycle_missed", "statement " + S(x.stmt) + " on the reported cycle was started");
     if (r.res.exit_code == 0) Report("C17", "cycle_missed", "ninja reported a dependency cycle but exited with status 0");
   } else if (must) {
     // other legitimate early errors (e.g. a missing source) come first
     bool other_error = r.res.exit_code != 0 && (r.res.err.find("ninja: error:") != std::string::npos || r.res.out.find("build stopped") != std::string::npos);
     // ... but "stuck [this is a bug]" is ninja admitting that it walked into the cycle undiagnosed
-    if (all.find("stuck [this is a bug]") != std::string::npos)
-      Report("C17", "cycle_missed", "the graph needed for the targets contains a dependency cycle; ninja did not diagnose it and ended with 'stuck [this is a bug]'" + std::string(r.spawns.empty() ? "" : " after starting commands"));
+    if (all.find("stuck [this is a bug]") != std::string::npos) {
+      // K30: is every possible cycle one that goes through an output only a dyndep file declares?
+      bool only_through_dd_output = !cyclic(3);
+      if (only_through_dd_output)
+        Report("C17", "cycle_through_dyndep_output_stuck", "the cycle is closed by an implicit output that a dyndep file declares; ninja did not diagnose it and ended with 'stuck [this is a bug]'");
+      else
+        Report("C17", "cycle_missed", "the graph needed for the targets contains a dependency cycle; ninja did not diagnose it and ended with 'stuck [this is a bug]'" + std::string(r.spawns.empty() ? "" : " after starting commands"));
+    }
+    else if (!other_error && !cyclic(3))
+      // K30 again: the consumer of the file was scanned (or even started) before the dyndep file
+      // said who produces it; the re-scan after the load does not revisit it
+      Report("C17", "cycle_through_dyndep_output_missed", "the cycle is closed by an implicit output that a dyndep file declares; ninja " + std::string(r.res.exit_code == 0 ? "exited with status 0" : "did not report it") + (r.spawns.empty() ? "" : " and started commands"));
     else if (!other_error)
       Report("C17", "cycle_missed", "the graph needed for the targets contains a dependency cycle, but ninja " + std::string(r.res.exit_code == 0 ? "exited with status 0" : "did not report it") + (r.spawns.empty() ? "" : " and started commands"));
   }
